@@ -95,6 +95,13 @@ BASIC = [
     G('global-noskipws', [Rule('M', S(Str('a'), Asg('x', '=', INT), Opt(Str(' ')), Asg('y', '=', ID)))],
       skipws=False),
     G('global-ws', [Rule('M', S(Str('a'), Asg('xs', '+=', INT)))], ws=' \t'),
+    # the configured whitespace set must be the one a [skipws] rule switches back on
+    G('global-noskipws-ws-rule-reset', [Rule('M', Asg('ps', '+=', Ref('P'))),
+                                        Rule('P', S(Str('p'), Asg('n', '=', ID), Str(';')), skipws=True)],
+      skipws=False, ws=' '),
+    G('global-noskipws-ws-nested-reset', [Rule('M', S(Str('m'), Asg('q', '=', Ref('Q')), Opt(Str('\t')))),
+                                          Rule('Q', S(Str('<'), Asg('ns', '+=', INT), Str('>')), skipws=True)],
+      skipws=False, ws='\t'),
     G('objref', [Rule('M', S(Asg('ds', '+=', Ref('D')), Asg('us', '*=', Ref('U')))),
                  Rule('D', S(Str('d'), Asg('name', '=', ID))),
                  Rule('U', S(Str('u'), Asg('r', '=', ObjRef('D'))))], tags=['refs']),
@@ -148,6 +155,11 @@ def multi_family():
         G('multi-match-rule-named-sep', [Rule('M', S(Asg('items', '+=', Ref('sep')), Opt(Asg('more', '*=', Ref('sep'), sep=Str(';'))))),
                                          Rule('sep', Re(r's\d'))], tags=['multi']),
         G('multi-id-values', [Rule('M', S(Asg('n', '=', ID), A(S(Str(','), Asg('n', '=', ID)), Str(';'))))], tags=['multi']),
+        # matched values that convert to a falsy Python value ('' / 0.0) are values like any other
+        G('multi-string-values', [Rule('M', S(Asg('a', '=', STRING), Asg('a', '=', STRING)))], tags=['multi']),
+        G('multi-string-seq-opt', [Rule('M', S(Asg('a', '=', STRING), Opt(S(Str(','), Asg('a', '=', STRING)))))], tags=['multi']),
+        G('multi-string-plain-and-list', [Rule('M', S(Asg('a', '=', STRING), Asg('a', '*=', STRING)))], tags=['multi']),
+        G('multi-float-values', [Rule('M', S(Asg('a', '=', FLOAT), Star(S(Str(','), Asg('a', '=', FLOAT)))))], tags=['multi']),
     ]
     return out
 
